@@ -412,6 +412,11 @@ func polyApproxEq(l, r *Poly, tol float64) bool {
 		if diff.Sign() == 0 {
 			continue
 		}
+		// two different integers are different: rounding of float literals never produces one
+		// (found by the mutation sweep: ^uint(0) and ^uint(1) compared equal to 2e-15 relative)
+		if x.IsInt() && y.IsInt() {
+			return false
+		}
 		m := new(big.Rat).Abs(x)
 		if ay := new(big.Rat).Abs(y); ay.Cmp(m) > 0 {
 			m = ay
